@@ -644,6 +644,185 @@ def o3_can_fit_law(F, r):
             r.fail(f"{name}: coverage", f"only {n} orderings explored", F.loc(tgt))
 
 
+SK = "vrp_core::construction::features::skills::"
+SKILL_LAWS = {"check_all_of": ("all_of", "is_subset"), "check_one_of": ("one_of", "any"), "check_none_of": ("none_of", "is_disjoint")}
+
+
+def s1_skill_laws(F, r):
+    """skills: allOf is a subset test (job ⊆ vehicle), oneOf an intersection test, noneOf a disjointness test; a job is admitted only if all three hold"""
+    from .. import ordeval as oe
+    for fname, (field, quant) in SKILL_LAWS.items():
+        fid = SK + fname
+        if fid not in F.fns:
+            raise AnchorError(fid)
+        fam = F.family(fid)
+        fields = set()
+        for g in fam:
+            for p in util.all_places(F.fns[g]):
+                for adt, f in mir.proj_fields(p):
+                    if adt.endswith("JobSkills"):
+                        fields.add(f)
+        if fields == {field}:
+            r.ok(f"{fname}: field", f"reads JobSkills.{field} only")
+        else:
+            r.fail(f"{fname}: field", f"reads JobSkills.{sorted(fields)} instead of `{field}`: the {field} requirement is checked against another skill list", F.loc(fid))
+        fn = F.fns[fid]
+        qs = [(g, t) for g in fam for _, t in mir.calls(F.fns[g]) if t["callee"].split("::")[-1] in ("is_subset", "is_superset", "is_disjoint", "any", "all", "contains")]
+        names = [t["callee"].split("::")[-1] for _, t in qs]
+        if quant not in names or any(x in names for x in ("is_superset", "all") if x != quant) or (quant != "is_subset" and "is_subset" in names) or (quant != "is_disjoint" and "is_disjoint" in names):
+            r.fail(f"{fname}: test", f"the {field} requirement is decided by {names} instead of `{quant}`", F.loc(fid))
+            continue
+        if quant == "is_subset":
+            g, t = [(g, t) for g, t in qs if t["callee"].endswith("is_subset")][0]
+            recv = {pr[0] for k, v, pr in mir.trace(F.fns[g], t["args"][0]) if pr}
+            arg = {pr[0] for k, v, pr in mir.trace(F.fns[g], t["args"][1]) if pr}
+            if recv == {"0"} and arg == {"1"}:
+                r.ok(f"{fname}: test", "job skills ⊆ vehicle skills")
+            else:
+                r.fail(f"{fname}: test", "subset test is asked the wrong way round (vehicle skills ⊆ job skills): a vehicle lacking a required skill is admitted", F.loc(g, t["ln"]))
+        else:
+            r.ok(f"{fname}: test", quant)
+    ms = [x for x in F.trait_impl_methods("vrp_core::models::goal::FeatureConstraint::evaluate") if "SkillsConstraint" in x]
+    if len(ms) != 1:
+        raise AnchorError("SkillsConstraint::evaluate")
+    m = ms[0]
+    it = oe.Interp(F, m, {1: oe.ref(oe.sym("self")), 2: oe.ref(oe.sym("ctx"))}, variants={"ctx": 0}, fresh=True, enum_results=True,
+                   call_models={"::get_job_skills": lambda i_, a, h, rl: oe.some(oe.ref(oe.sym("skills")))})
+    seen = set()
+    try:
+        paths = it.explore()
+    except oe.Undecided as e:
+        r.fail("SkillsConstraint::evaluate", f"not evaluable: {e}", F.loc(m))
+        return
+    for p in paths:
+        res = {a[3].split("::")[-1]: a[2] for a in p.assumptions if a[0] == "callret" and a[3] and a[3].startswith(SK + "check_")}
+        seen |= set(res)
+        ok = all(res.values())
+        inst = "SkillsConstraint::evaluate [" + ",".join(f"{k[6:]}={'ok' if v else 'no'}" for k, v in sorted(res.items())) + "]"
+        admitted = p.ret == oe.NONE
+        if admitted and not ok:
+            r.fail(inst, "the job is admitted although one of the skill requirements is not met", F.loc(m))
+        elif not admitted and ok and len(res) == 3:
+            r.fail(inst, "the job is rejected although all skill requirements are met", F.loc(m))
+        else:
+            r.ok(inst, "admitted" if admitted else "rejected")
+    if seen != set(SKILL_LAWS):
+        r.fail("SkillsConstraint::evaluate: checks", f"only {sorted(seen)} of the three skill checks are consulted", F.loc(m))
+
+
+def _toks(fn, op):
+    lv, calls = mir.deep_leaves(fn, op)
+    t = set()
+    for k, v, p in lv:
+        if k in ("arg", "local"):
+            nm = fn["names"].get(str(v))
+            if nm:
+                t.add(nm)
+        t |= {str(x) for x in p}
+    return t | {c.split("::")[-1] for c in calls}
+
+
+def _kind(tokens):
+    k = set()
+    for t in tokens:
+        if "dist" in t:
+            k.add("distance")
+        if "dur" in t:
+            k.add("duration")
+    return k
+
+
+def _viol_on_edges(fn, sb):
+    """for the switch block sb: {edge target: set of (callee last segment, code tokens)} of the violation constructors reachable first from that edge"""
+    out = {}
+    t = fn["bbs"][sb]["t"]
+    viol = {bi: tt for bi, tt in mir.calls(fn) if tt["callee"].endswith(("ConstraintViolation::skip", "ConstraintViolation::fail"))}
+    for tgt in set(mir.succs(fn)[sb]):
+        P = mir.preds(fn)
+        seen = set() if tgt in viol else mir.reach(fn, [tgt], blocked=set(viol) | {sb})
+        first = [b for b in viol if b == tgt or any(q in seen for q in P[b])]
+        out[tgt] = [(viol[b]["callee"].split("::")[-1], _toks(fn, viol[b]["args"][0])) for b in first]
+    return out
+
+
+def m1_limit_laws(F, r):
+    """tour limits: a violation is raised exactly when current + change exceeds the limit, each limit compared with its own total and reported with its own code"""
+    ms = [x for x in F.trait_impl_methods("vrp_core::models::goal::FeatureConstraint::evaluate") if "TravelLimitConstraint" in x]
+    if len(ms) != 1:
+        raise AnchorError("TravelLimitConstraint::evaluate")
+    m = ms[0]
+    fn = F.fns[m]
+    found = set()
+    for bi, si, st in mir.stmts(fn):
+        rv = st["r"]
+        if rv["k"] != "bin" or rv.get("op") not in ("Lt", "Gt", "Le", "Ge"):
+            continue
+        ta, tb = _toks(fn, rv["o"][0]), _toks(fn, rv["o"][1])
+        la, lb = any("limit" in x for x in ta), any("limit" in x for x in tb)
+        if la == lb:
+            continue
+        op = rv["op"] if lb else {"Lt": "Gt", "Gt": "Lt", "Le": "Ge", "Ge": "Le"}[rv["op"]]      # normalised: total OP limit
+        lim, tot = (tb, ta) if lb else (ta, tb)
+        sw = [sb for sb, bb in enumerate(fn["bbs"]) if bb["t"]["k"] == "switch" and mir.is_place(bb["t"]["o"]) and bb["t"]["o"]["l"] == st["d"]["l"]]
+        if len(sw) != 1:
+            raise AnchorError("TravelLimitConstraint::evaluate: limit comparison not switched on directly")
+        t = fn["bbs"][sw[0]]["t"]
+        f_t = [x for v, x in t["tg"] if v == 0][0]
+        edges = _viol_on_edges(fn, sw[0])
+        kl, kt = _kind(lim), _kind({x for x in tot if x.startswith("get_total")})
+        # the change added to the cached total: which component of calculate_travel?
+        tot_op = rv["o"][0] if lb else rv["o"][1]
+        idx = set()
+        for k, v, pr in mir.trace(fn, tot_op, through_calls=()):
+            if k == "bin":
+                for o in fn["bbs"][v[0]]["s"][v[1]]["r"]["o"]:
+                    for kk, vv, pp in mir.trace(fn, o):
+                        if kk == "call" and fn["bbs"][vv]["t"]["callee"].endswith("calculate_travel") and pp:
+                            idx.add(pp[0])
+        kc = {"0": "distance", "1": "duration"}.get(next(iter(idx)), "?") if len(idx) == 1 else "?"
+        on_true = edges.get(t["else"], [])
+        on_false = edges.get(f_t, [])
+        kcode = _kind(set().union(*[c[1] for c in on_true])) if on_true else set()
+        kinds = kl | kt | {kc} | kcode
+        kind = next(iter(kl)) if len(kl) == 1 else "?"
+        inst = f"TravelLimit: {kind} limit"
+        found.add(kind)
+        if len(kinds) != 1:
+            r.fail(inst, f"the comparison mixes kinds: limit {sorted(kl)}, cached total {sorted(kt)}, change component {kc}, reported code {sorted(kcode)} — each tour limit must be compared with "
+                   "its own total + change and reported with its own code", F.loc(m, st["ln"]))
+        elif op != "Gt" or not on_true or (on_false and on_false[0][1] == on_true[0][1] and f_t != t["else"] and False):
+            r.fail(inst, f"violation is raised on `total {op} limit`" + ("" if on_true else " (no violation on the exceeding side)") + ": a tour exactly at its limit is rejected, or one above it accepted", F.loc(m, st["ln"]))
+        else:
+            r.ok(inst, f"violation ({on_true[0][0]}, {kind} code) iff cached total + change > limit")
+    if found != {"distance", "duration"}:
+        r.fail("TravelLimit: limits", f"only {sorted(found)} of the distance/duration limits are compared", F.loc(m))
+    # tour size
+    ms = [x for x in F.trait_impl_methods("vrp_core::models::goal::FeatureConstraint::evaluate") if "ActivityLimitConstraint" in x]
+    if len(ms) != 1:
+        raise AnchorError("ActivityLimitConstraint::evaluate")
+    hit = False
+    for g in F.family(ms[0]):
+        gfn = F.fns[g]
+        for bi, si, st in mir.stmts(gfn):
+            rv = st["r"]
+            if rv["k"] != "bin" or rv.get("op") not in ("Lt", "Gt", "Le", "Ge"):
+                continue
+            ta, tb = _toks(gfn, rv["o"][0]), _toks(gfn, rv["o"][1])
+            if "job_activity_count" in ta or "job_activity_count" in tb:
+                hit = True
+                op = rv["op"] if "job_activity_count" in ta else {"Lt": "Gt", "Gt": "Lt", "Le": "Ge", "Ge": "Le"}[rv["op"]]
+                sw = [sb for sb, bb in enumerate(gfn["bbs"]) if bb["t"]["k"] == "switch" and mir.is_place(bb["t"]["o"]) and bb["t"]["o"]["l"] == st["d"]["l"]]
+                ed = _viol_on_edges(gfn, sw[0]) if len(sw) == 1 else {}
+                tt = gfn["bbs"][sw[0]]["t"] if len(sw) == 1 else None
+                on_true = ed.get(tt["else"], []) if tt else []
+                if op == "Gt" and on_true and on_true[0][0] == "fail":
+                    r.ok("ActivityLimit: tour size", "violation iff activities in tour + activities of the job > limit")
+                else:
+                    r.fail("ActivityLimit: tour size", f"violation is raised on `size {op} limit`: a tour exactly at its size limit is rejected, or one above it accepted", F.loc(g, st["ln"]))
+    if not hit:
+        r.fail("ActivityLimit: tour size", "no comparison of the tour's activity count with the limit", F.loc(ms[0]))
+
+
 CAP_NAMES = ("capacity", "available", "resource_available", "resources", "resource_capacity")
 
 
@@ -1046,6 +1225,8 @@ def run(ctx):
     ctx.run("C01-Q1", "no comparison in constraint code relates a value to itself (a constant guard)", q1_no_self_comparison, floor=1)
     from .common import operator_agreement
     ctx.run("C01-O2", "load / cost / statistic operators: every impl Add/Sub/Mul computes with its own operator family", operator_agreement, floor=8)
+    ctx.run("C01-M1", "tour limits: violation iff total + change > limit; each limit compared with its own total / change component / code", m1_limit_laws, floor=3)
+    ctx.run("C01-S1", "skills: allOf ⊆, oneOf ∩≠∅, noneOf ∩=∅ over the right fields; a job is admitted iff all three hold (finite evaluation)", s1_skill_laws, floor=10)
     ctx.run("C01-O4", "can_fit is asked of the capacity / available resource about the load (roles not swapped)", o4_can_fit_roles, floor=8)
     ctx.run("C01-O3", "can_fit(capacity, load) iff load <= capacity in every dimension (finite-ordering evaluation)", o3_can_fit_law, floor=7)
     ctx.run("C01-O1", "load verdicts in capacity/reload constraints are component-wise (can_fit), not the partial order", o1_componentwise_loads, floor=2)
